@@ -22,7 +22,7 @@ CLAIMS = {
     "C02": ("Lean 4 theorems: per-step transition relation (none->approved->executed only), lifted by induction to all histories; validateMessage characterisation; at-most-one true validation per id over every history; message-hash binding; the life cycle also holds in the composed world (every operation of every schedule, any contract calling the gateway: lifecycle_in_the_whole_world); differential run + lifecycle judge on the real gateway",
             "Machine-checked proofs that every endpoint call moves each message entry only along non-existent -> approved -> executed, that existing entries are untouched by later batches (incl. duplicates and altered contents), that validateMessage returns true iff the entry is the approval binding caller/source/payload hash and then executes it, and that over every history at most one validation per id returns true; the real gateway is run against the model and judged by the same predicates.",
             GW_NOTE, "DESIGN.md §3 C02"),
-    "C03": ("Lean 4 theorems: rotation effect (epoch+1, fresh hash, well-formed set <-> declarative wfSigners), non-operator latest+delay, operator any in-window set, out-of-window rejected for every command, registry entries permanent, operator changes only by operator/owner; differential run + judge on the real gateway",
+    "C03": ("Lean 4 theorems: rotation effect (epoch+1, fresh hash, well-formed set <-> declarative wfSigners), non-operator latest+delay, operator any in-window set, out-of-window rejected for every command, registry entries permanent, operator changes only by operator/owner (transferOperatorship or the owner's upgrade); the owner's upgrade(operator, signers…) is an operation of the histories and registers only fresh well-formed sets, one epoch each; differential run + judge on the real gateway (rotations, upgrades, time, operatorship)",
             "Machine-checked proofs of the exact effect and preconditions of every successful rotation, equivalence of validate_signers with the declarative well-formedness predicate, the operator/non-operator rules, rejection of out-of-window sets by both commands, permanence of registry entries over all histories, and that operatorship changes only by operator or owner; the real gateway is run against the model over rotation/time/operatorship histories.",
             GW_NOTE, "DESIGN.md §3 C03"),
     "C15": ("Lean 4 theorems: outflow only via collectFees/refund by the current collector to a non-zero receiver within balance; payment endpoints emit exactly one event built from the received value; collector changes only by collector/owner; conservation (balance = initial + receipts - outflows) by induction over all call histories; differential run + judge on the real gas service",
@@ -37,7 +37,7 @@ CLAIMS = {
             "Machine-checked proofs over a complete case analysis of the token-manager endpoints (call_cases): gating of custody and mint/burn, exact effects per manager kind, and that any change of an account's roles is one of the nine guarded role operations or the issuance step; the real crates are run against the compiled model (balances, roles and proposals compared after every operation).",
             "ESDT local mint/burn roles are protocol state set by the harness (`roles` op) as the system contract would; the debug VM's role check is the one exercised. Trusted: Lean kernel, model, harness, debug VM.",
             "DESIGN.md §3 C10"),
-    "C11": ("Lean 4 theorems: dispatch requires a non-zero matured eta and clears it; schedule refuses a set slot and stores max(eta, now+minDelay); callback effects; proposal-hash binding (collision-or-equal); the full-strength 'not cancelled since' is REFUTED by a general theorem (finding F3) and the part that holds is proved as _partial; differential run with the three dispatch steps scheduled separately + ghost-history judge on the real governance and gateway",
+    "C11": ("Lean 4 theorems: dispatch requires a non-zero matured eta and clears it; schedule refuses a set slot and stores max(eta, now+minDelay); callback effects; proposal-hash binding (collision-or-equal); OVER EVERY HISTORY successful dispatches + dispatches in flight + live time locks never exceed accepted schedulings per proposal, and a never-scheduled proposal is never dispatched (Proofs/GovHistory); the full-strength 'not cancelled since' is REFUTED by a general theorem (finding F3) and the part that holds is proved as _partial; differential run with the three dispatch steps scheduled separately + ghost-history judge on the real governance and gateway",
             "Machine-checked proofs about every step of the time-lock life cycle for all states, times and arguments, including a proof that a cancel landing between dispatch and failure callback is lost on the unchanged code (known finding F3, replayed on the real contracts from corpus/C11 on every run); the real contracts are run against the model with other transactions placed between dispatch, target call and callback.",
             "The dispatched target is external code: its outcome is chosen by the schedule; gas exhaustion inside the callback is outside the model. Trusted: Lean kernel, model, harness (delivers promises step by step through the VM's own promise/callback input builders), debug VM.",
             "DESIGN.md §3 C11, §4 F3"),
@@ -45,7 +45,7 @@ CLAIMS = {
             "Machine-checked proofs of authentication and non-replay of governance commands (using the gateway lifecycle theorems), of the frame of all other endpoints, and of the operator-proposal rules; the cancel-in-window loss for operator approvals is a recorded known finding (F3) replayed from corpus/C12 on every run.",
             "As C11. Cryptography is a parameter (hash collisions appear only in binding statements).",
             "DESIGN.md §3 C12, §4 F3"),
-    "C16": ("Lean 4 theorems: failure callback credits exactly the attached payments per (caller, token, nonce), additively, to the dispatching caller only; success credits nothing; withdrawRefundToken pays the whole credit to the caller once and zeroes it; no other endpoint touches credits; differential run (credits and balances compared after every step) on the real governance contract",
+    "C16": ("Lean 4 theorems: failure callback credits exactly the attached payments per (caller, token, nonce), additively, to the dispatching caller only; success credits nothing; withdrawRefundToken pays the whole credit to the caller once and zeroes it; no other endpoint touches credits; OVER EVERY HISTORY (credits_ledger_over_histories: any list of endpoint calls through the model's dispatcher, commands against any gateway state, callbacks of dispatches in flight in any order with any outcome) outstanding credit + withdrawn = attached to failed dispatches, per (user, token, nonce); differential run (credits and balances compared after every step) on the real governance contract",
             "Machine-checked proofs of the exact credit arithmetic (including repeated tokens in one multi-transfer and repeated failures) and of the frame; the real contract is driven through dispatch / delivery / callback / withdrawal interleavings and compared with the model on getRefundToken and balances.",
             "Gas exhaustion of the callback and the gas reservation constants cannot be exhibited by the model. Trusted: Lean kernel, model, harness, debug VM.",
             "DESIGN.md §3 C16"),
@@ -105,6 +105,10 @@ def main():
         if p not in CLAIMS or p not in checklib.PROPS:
             continue
         tech, text, note, ref = CLAIMS[p]
+        if checklib.SURFACE.get(p):
+            tech += ("; surface obligations re-proved on every run over the table regenerated from the sources: the exported "
+                     "state-changing entry points (annotations, arities) of the anchored contract(s) are exactly those of the model's "
+                     "dispatcher, and no two storage mappers can alias (Proofs/Surface*.lean)")
         checks.append({
             "property_id": p,
             "quick_cmd": f"./check {p} --tier quick",
